@@ -489,6 +489,13 @@ func RunC05(d *Driver) *Report {
 		r.Disagree(Case{Stream: "build", Input: "go build", Real: berr.Error()})
 	}
 	r.Rule = fmt.Sprintf("termination analysis: alwaysTerminates of every statement of %d accepted programs (%d constructed function bodies with every combination of returning / non-returning if, else-if, else branches, loops, nesting, comments and blank lines; generated programs; documentation examples) compared with Model/Static.lean; the hypotheses of typed_function_returns_a_value (terminates, breaks only in loops, returns carry values) evaluated by the model on each of the %d accepted typed functions; and for each constructed body exactly one of {body alone, body + return} must be accepted, as the analysis says. Rule-breaking edits: %d programs = 2 rich valid programs x every line position x 52 edits of 11 kinds (unused / undeclared variable, redeclaration, type mismatch, argument count, unknown function, stray text after a statement and after end, break outside a loop, value returned from handler / procedure / top level) + 120 constructed programs for block scoping (use after the block, in a sibling branch of every if chain position, in another function or handler, before the declaration), event handler parameter lists (every wrong type and count for every event), redeclared functions / handlers / parameters, argument and return types + unreachable code after every return / break (directly and after comment + blank line) + missing return; each must be rejected with a located error, produce no platform call and no output through the library entry point, and (%d of them) exit non-zero with empty stdout and errors on stderr through the rebuilt `evy run`. Non-trivial = distinct program", nterm, nfn, len(bodies), nedit, nbin)
+	// the variable rules: the scope / use-mark model against the real parser
+	nsc := 3000
+	if Thorough() {
+		nsc = 60000
+	}
+	nscope := scopeStream(r, d, rng, nsc)
+	r.Rule += fmt.Sprintf("; variable rules: %d programs over five num variables (declarations, reads, assignments, if chains, while, for with and without loop variable, functions and handlers with parameters, shadowing, depth <= 3; built well scoped, half of them broken by one or two edits): accepted by the real parser iff Model/Scope.lean accepts them, and a program that model rejects breaks a variable rule by accepted_program_is_well_scoped", nscope)
 	r.DriverCalls = d.N
 	return r
 }
